@@ -662,6 +662,31 @@ theorem conc_ok_activation_canonical (c : Cfg V E) (ex : V → X) (canon : V →
   obtain ⟨hr', _⟩ := reach_restrict (canon := canon) (canon_init c.o canon init progs clock c.act0 hi hp) hr
   exact conc_ok_activation (restrictC c canon) ex (restrictO_exact c.o ex canon h) init progs clock s hn hr' hq p
 
+theorem conc_ok_canonical (c : Cfg V E) (ex : V → X) (canon : V → Bool) (h : CanonExact c.o ex canon)
+    (init : Pid → Entry V E) (progs : Tid → List (Op V E)) (clock : Int) (s : Sys V E) (hn : c.conns.Nodup)
+    (hi : ∀ p, canon (init p).value = true) (hp : ∀ t, progCanon c.o canon (progs t))
+    (hr : Reach c (Sys.init init progs clock c.act0) s) (hq : s.lock = none) (p : Pid) :
+    ConcOk (S := VE X E) ⟨(init p).ve.map ex,
+      (statConns c s p).map (fun k => (s.logs k p).map (fun d => ⟨d.msg.ve.map ex, d.seen.map ex⟩)),
+      (s.entries p).ve.map ex⟩ := by
+  obtain ⟨hr', _⟩ := reach_restrict (canon := canon) (canon_init c.o canon init progs clock c.act0 hi hp) hr
+  exact conc_ok (restrictC c canon) ex (restrictO_exact c.o ex canon h) init progs clock s hn hr' hq p
+
+theorem change_request_coherent_canonical (c : Cfg V E) (ex : V → X) (canon : V → Bool) (h : CanonExact c.o ex canon)
+    (init : Pid → Entry V E) (progs : Tid → List (Op V E)) (clock : Int) (s : Sys V E) (hn : c.conns.Nodup)
+    (hi : ∀ p, canon (init p).value = true) (hp : ∀ t, progCanon c.o canon (progs t))
+    (hr : Reach c (Sys.init init progs clock c.act0) s)
+    (t : Tid) (k : Cid) (p : Pid) (rq : ChangeReq V) (ck : Bool) (inner : List V) (w : WriteRes V)
+    (hprog : progs t = changeOps c.o k p rq ck inner w) :
+    (∃ rest, (changeEvs c.o rq ck inner w).map (fun ev => (p, resolve c.o ev)) = doneBy t s.ghist ++ rest) ∧
+    (finished s t = true → doneBy t s.ghist = (changeEvs c.o rq ck inner w).map (fun ev => (p, resolve c.o ev))) ∧
+    s.hist p = onParam p s.ghist ∧
+    (Sub c s k p → (∀ t', pcPid (s.thr t').pc ≠ some p) →
+      replayO (known0 c ex init k p) ((plog s k p).map (fun m => m.ve.map ex)) = some ((s.entries p).ve.map ex)) := by
+  obtain ⟨hr', _⟩ := reach_restrict (canon := canon) (canon_init c.o canon init progs clock c.act0 hi hp) hr
+  exact change_request_coherent (restrictC c canon) ex (restrictO_exact c.o ex canon h) init progs clock s hn hr' t k p rq ck
+    inner w hprog
+
 /-- and the cache never holds anything but canonical values -/
 theorem cache_canonical (c : Cfg V E) (canon : V → Bool) (init : Pid → Entry V E) (progs : Tid → List (Op V E))
     (clock : Int) (s : Sys V E) (hi : ∀ p, canon (init p).value = true) (hp : ∀ t, progCanon c.o canon (progs t))
